@@ -198,6 +198,8 @@ class BlockIntEnumFieldListWrapper(BlockBindEnum[F], BlockWrapper[F]):
 
     @override(BlockWrapper)
     def after(self) -> None:
+        if not self.d.fields():
+            self.push("    pass")  # An enum without members
         self.push_empty_line()
 
     def render_enum_type(self) -> None:
